@@ -115,7 +115,12 @@ def search_attachment():
                     return {"confirmed": True, "input": {"source": text, "markers": marks}, "actual": {nm: got}, "expected": {nm: (["sharedw1", "sharedw2"], True, "7")},
                             "how": "two variables declared on one line with a shared comment that starts with metadata lines"}
         for tag, ent in ents.items():
-            got = [x for x in " ".join(ent.doc_list).split() if re.match(r"^[a-z]\w*w\d$", x)]
+            allw = " ".join(ent.doc_list).split()
+            got = [x for x in allw if re.match(r"^[a-z]\w*w\d$", x)]
+            leaked = [x for x in allw if x.startswith(("NOISE", "INNER")) or x == "ordinary"]
+            if leaked:
+                return {"confirmed": True, "input": {"source": text, "markers": marks}, "actual": {tag: allw}, "expected": {tag: words(tag)},
+                        "how": f"doc_list of entity '{tag}' holds the text of an ordinary comment ({leaked[0]}); style={style}, inline={inline}, comments/blank lines between entities={noise}"}
             if got != words(tag):
                 return {"confirmed": True, "input": {"source": text, "markers": marks}, "actual": {tag: got}, "expected": {tag: words(tag)},
                         "how": f"doc_list of entity '{tag}' after parsing; style={style}, inline={inline}, comments/blank lines between entities={noise}"}
